@@ -10,6 +10,7 @@ echo "| seeded change | property | verdict | first report |" > $out
 echo "|---|---|---|---|" >> $out
 for d in seeded/C*/; do
   id=$(basename $d); p=${id%-*}
+  if [ -n "${DRILL_FILTER:-}" ] && ! echo "$id" | grep -Eq "$DRILL_FILTER"; then continue; fi
   git -C $VERIF_REPO apply $PWD/$d/patch.diff || { echo "| $id | $p | PATCH-DOES-NOT-APPLY | |" >> $out; continue; }
   res=$(timeout 3000 ./check $p --tier quick 2>&1 | grep -v "^KNOWN\|^\[build\]")
   git -C $VERIF_REPO checkout -- .
